@@ -40,7 +40,7 @@ claimed = {
              "that otherwise the body is exactly the raw bytes; also behind an encoding outer container (no double encoding), after an earlier request to a route with its own setting, with a superfluous late status (204/304/500) after the body, with a handler that never calls Write, with a handler that hijacks the connection, with the container switch flipped after Handle registered the plain handler, and with a client whose writes fail (ledger only). That real gzip/zlib streams decode to their input is assumed (checked natively on the replayed witnesses only).", design="5 (C07)"),
  "C10": dict(text="The panic position is a symbolic choice over every position of a generated filter chain (before/after each filter passes on, handler before/after writing); for recovery on/off, "
              "encoding on/off and both entry points the solver proves: recover handler once with the panic value and the active writer, complete decodable body, nothing escapes (or the same "
-             "value propagates when recovery is off), no lock held, compressor ledger clean, and the next request on the same container is served normally; positions include a route selection condition and the container filters around a routing error; the default recover handler is covered for escape, completeness and Content-Length; the request's context may already be done.", design="5 (C10)"),
+             "value propagates when recovery is off), no lock held, compressor ledger clean, and the next request on the same container is served normally; positions include a route selection condition and the container filters around a routing error; the default recover handler is covered for escape, completeness and Content-Length; the request's context may already be done; natively 'no lock held' is confirmed by trying the container's write lock.", design="5 (C10)"),
  "C11": dict(text="Explicit histories (<= 4 operations over a menu of 9 root paths, enumerated) build a container; a fresh container is built from the model of its final content; both get the same "
              "symbolic probe request (GET, or OPTIONS through the OPTIONS filter) through Dispatch and through ServeHTTP (ServeMux modelled) and must answer identically (status, route function, Allow); per history, variants send the probe once earlier (before one of the operations) and switch dynamic routes on at once, after the first routes, or only before the first route change; Add/Remove must not panic. The inductive formulation of the design was "
              "not built: the claim is bounded by history length.", design="5 (C11)"),
@@ -49,7 +49,7 @@ claimed = {
              "handed to one handler are scribbled on (and a new path parameter is left behind) and must not reach the next; for five request shapes two requests in flight after a warm-up request are decided race-free and stuck-free over all schedules (event-order encoding).", design="5 (C19), 2.7, 2.8"),
  "C12": dict(text="Two threads - one request (to the changed service, to another one, or an OPTIONS request through OPTIONSFilter) through Dispatch or ServeHTTP, one of Add/Remove/Route/RemoveRoute - are executed in recording mode (loads/stores of pre-existing objects and RWMutex "
              "operations become events); per pair of conflicting accesses the solver decides over all schedules whether they can be adjacent (data race), and one query decides whether a state "
-             "with a thread blocked forever is reachable (incl. a pending writer blocking new readers). Value level: the same two threads are run interleaved on one state, every interleaving with context switches at lock acquisitions and a bounded number of preemptions being one path (bounded interleaving exploration); the concurrent request's answer must be the one of the registrations before or after the change, and nine later requests must be answered as on a container where the change was made with no request in flight; schedules are replayed natively with the order enforced.", design="5 (C12), 2.8, 2.8b", tech="; schedules are solver variables in the event-order encoding (data race / stuck state over all interleavings of the bounded thread set) and forked alternatives in the bounded interleaving exploration (context switches at lock acquisitions, preemption-bounded), each counterexample schedule replayed natively",
+             "with a thread blocked forever is reachable (incl. a pending writer blocking new readers). Value level: the same two threads are run interleaved on one state, every interleaving with context switches at lock acquisitions and a bounded number of preemptions being one path (bounded interleaving exploration); the concurrent request's answer must be the one of the registrations before or after the change, and nine later requests must be answered as on a container where the change was made with no request in flight; schedules are replayed natively with the order enforced. Four quick items (all in thorough) add a third thread: Remove next to Add - two changes of the service list at once, neither may undo the other - plus a request.", design="5 (C12), 2.8, 2.8b", tech="; schedules are solver variables in the event-order encoding (data race / stuck state over all interleavings of the bounded thread set) and forked alternatives in the bounded interleaving exploration (context switches at lock acquisitions, preemption-bounded), each counterexample schedule replayed natively Four items also run a third thread in the quick tier: Remove next to Add (two changes of the service list at once, neither may undo the other) plus a request.",
              note="Event-order half: each thread is executed alone from the pre-mutation state. Interleaving half: context switches only at lock acquisitions (complete for lock-ordered accesses, which the race query establishes), <= 2 preemptions quick / 4 thorough. More threads/operations, the Go memory model, scheduler fairness and re-entrant user code are outside the claim."),
  "C13": dict(text="Concurrent half: the real BoundedCachedCompressors code runs per thread in recording mode (channel operations become events with symbolic results); for every capacity, initial "
              "fill, object kind and 2-3 threads one solver query over 8-bit timestamps and executed-flags decides whether any schedule reaches a state in which a thread is blocked forever in "
